@@ -195,6 +195,17 @@ Theorem rn_pow_spec_sturm (fuel : nat) (x z : rnum) (a : R) (n : nat) :
   rn_denotes x a -> rn_pow fuel x n = Some z -> rn_denotes z (a ^+ n).
 Proof. exact: rn_pow_spec_cond count_open_correct sq _ _ _ _ _. Qed.
 
+(* multiplication by a rational on the representation: unconditional *)
+Theorem rn_mul_q_spec (x : rnum) (q : Z * Z) (v : R) :
+  rn_denotes x v -> qpos q -> rn_denotes (rn_mul_q x q) (v * qr q).
+Proof. exact: rn_mul_q_spec_cond sq _ _ _. Qed.
+
+Theorem mp_eval_rn_spec_sturm (fuel : nat) (rho : MPoly.var -> rnum) (rhoR : MPoly.var -> R) (p : MPoly.mpoly)
+  (z : rnum) :
+  (forall v, rn_denotes (rho v) (rhoR v)) ->
+  mp_eval_rn fuel rho p = Some z -> rn_denotes z (mp_evalR rhoR p).
+Proof. exact: mp_eval_rn_spec_cond count_open_correct sq _ _ _ _ _. Qed.
+
 End Final.
 
 (* ---------------------------------------------------------------- the equality test of the reference comparison *)
